@@ -201,6 +201,24 @@ static var build_seq(vh_rng* r, int kind, const int64_t* v, int n, int history) 
       for (int i = 0; i < n; i++) { push(c, ELEM(v[i])); if (vh_chance(r, 50)) { push(c, ELEM(12345)); pop(c); } }
       if (n > 0) { push_at(c, ELEM(777), $I(0)); pop_at(c, $I(0)); }
       break;
+    case 4: /* overshoot, then cut back with resize; then a resize to the length it already has */
+      for (int i = 0; i < n; i++) { push(c, ELEM(v[i])); }
+      if (kind != 2) {
+        int extra = (int)vh_below(r, 4);
+        for (int i = 0; i < extra; i++) { push(c, ELEM(4242 + i)); }
+        if (n > 0 || extra > 0) { resize(c, (size_t)n); }
+        if (n > 0) { resize(c, (size_t)n); }
+        vh_count("sequences_cut_back_with_resize");
+      }
+      break;
+    case 5: /* a List grown by resize (fresh zero elements), then overwritten */
+      if (kind == 1 && n > 0) {
+        resize(c, (size_t)n);
+        for (int i = 0; i < n; i++) { set(c, $I(i), ELEM(v[i])); }
+        vh_count("lists_grown_with_resize");
+        break;
+      }
+      /* fall through */
     default: /* reserve / overwrite */
       if (kind == 0) { resize(c, (size_t)n + 50); }
       for (int i = 0; i < n; i++) { push(c, ELEM(0)); }
@@ -216,7 +234,7 @@ static void seq_histories(vh_rng* r) {
   for (int i = 0; i < n; i++) { v[i] = vh_chance(r, 70) ? vh_range(r, -3, 3) : (int64_t)vh_next(r); }
   var c[6]; int kinds[6];
   char d[120];
-  for (int i = 0; i < 6; i++) { kinds[i] = i % 3; c[i] = build_seq(r, kinds[i], v, n, (int)vh_below(r, 4)); }
+  for (int i = 0; i < 6; i++) { kinds[i] = i % 3; c[i] = build_seq(r, kinds[i], v, n, (int)vh_below(r, 6)); }
   for (int i = 0; i < 6; i++) { for (int j = i + 1; j < 6; j++) {
     snprintf(d, sizeof d, "sequences of %d elements: kind %d vs kind %d, different histories", n, kinds[i], kinds[j]);
     equal_pair("sequence", c[i], c[j], d);
